@@ -317,6 +317,7 @@ func (x *Exec) loopEnv(st *State, fr *Frame, header *ssa.BasicBlock) *Env {
 			if it := st.iters[nx.Iter.(*ssa.Range)]; it != nil {
 				_, ks, _ := x.mapInfo(it.Map.T)
 				extra["$visited"] = Val{T: nil, K: KScalar, S: it.Visited}
+				extra["$start"] = Val{T: nil, K: KScalar, S: it.Start}
 				extra["$count"] = Val{T: types.Typ[types.Int], K: KScalar, S: it.Count}
 				extra["$map"] = it.Map
 				_ = ks
@@ -467,9 +468,11 @@ func (x *Exec) havocLoop(st *State, fr *Frame, header *ssa.BasicBlock, ord int) 
 		copyMetaLoop(&nv, old)
 		fr.regs[phi] = nv
 	}
-	// ghosts
+	// ghosts that a hook inside the loop may assign
 	for n, g := range st.ghost {
-		st.ghost[n] = x.freshVal(st, g.T, "ghost."+n)
+		if ws.ghosts == nil || ws.ghosts[n] {
+			st.ghost[n] = x.freshVal(st, g.T, "ghost."+n)
+		}
 	}
 	// iterators advanced inside the loop
 	li := x.loops(fr.fn)
@@ -528,9 +531,11 @@ func (x *Exec) loopWriteSet(st *State, fr *Frame, header *ssa.BasicBlock) *write
 	// save dry context (nested discovery)
 	saveFn, saveBody, saveAcc, saveAll := x.dryFrameFn, x.dryBody, x.dryAcc, x.dryAll
 	saveKept, saveKeptSet := x.dryKept, x.dryKeptSet
+	saveGhosts := x.dryGhosts
 	x.dry++
 	x.dryFrameFn, x.dryBody, x.dryAcc, x.dryAll = fr.fn, li.body[header], map[string]bool{}, false
 	x.dryKept, x.dryKeptSet = nil, false
+	x.dryGhosts = map[string]bool{}
 	st2, fr2 := st.clone(), fr.clone()
 	st2.written = map[string]bool{}
 	st2.writtenAll = false
@@ -557,9 +562,15 @@ func (x *Exec) loopWriteSet(st *State, fr *Frame, header *ssa.BasicBlock) *write
 		}()
 		x.execFrom(st2, fr2, header, x.firstNonPhi(header))
 	}()
-	ws := &writeSet{names: x.dryAcc, all: x.dryAll, kept: x.dryKept}
+	ws := &writeSet{names: x.dryAcc, all: x.dryAll, kept: x.dryKept, ghosts: x.dryGhosts}
 	x.dryFrameFn, x.dryBody, x.dryAcc, x.dryAll = saveFn, saveBody, saveAcc, saveAll
 	x.dryKept, x.dryKeptSet = saveKept, saveKeptSet
+	x.dryGhosts = saveGhosts
+	if x.dry > 0 && x.dryGhosts != nil {
+		for n := range ws.ghosts {
+			x.dryGhosts[n] = true
+		}
+	}
 	// an enclosing dry run must also see these writes
 	if x.dry > 0 && x.dryAcc != nil {
 		for n := range ws.names {
